@@ -60,5 +60,17 @@ PROPS = {
                         "stream level (a bad frame ends only its stream; SelectAll of independent streams) is structural in lib.rs: each inbound stream is its own "
                         "IncomingStream value; theorems about run_stream (Framed.v) cover the single stream, independence of streams is not exhibited by a model"],
     },
+    "C09": {
+        "engines": [{"name": "codec", "n": {"quick": 1200, "thorough": 40000}, "profiles": ["debug", "release"], "oracle": "oracle_C09",
+                     "known": {}, "count": []}],
+        "tie_lemmas": ["tie_max_message_size", "tie_limit_operand", "tie_limit_operator", "tie_varint_error_mapping"],
+        "rule": "engine codec (debug = overflow-checked and release profile; in release every decode runs in a confined child process): "
+                "length prefixes of every varint byte length 1..11 (values around every power of two, around the 4 MiB limit, overlong / overflowing / "
+                "non-minimal encodings) followed by 0, 1, 3 and 40 payload bytes; all frames of <= 3 (quick) / 4 (thorough) bytes over a 14-byte boundary alphabet; "
+                "encode/decode of generated message values; every proper prefix of small frames; the harness's own non-canonical encodings; mutated frames. "
+                "Non-trivial = a non-empty frame; distinct = distinct input terms.",
+        "exhaustive_note": "all frame bodies of length <= 3 (quick) / 4 (thorough) over a 14-byte alphabet; varint prefixes of every byte length",
+        "assumptions": ["64-bit usize", "outbound half (C09_outbound_split) is about the server handler model, see Props_C09.v"],
+    },
 }
 NOT_CLAIMED = {}
